@@ -280,12 +280,14 @@ func AssembleFile(ctx context.Context, name string, idx Index, s Store, seeds []
 	pb.Start()
 	defer pb.Finish()
 
+	var interrupted bool
 loop:
 	for _, segment := range plan {
 		verifYield("asm.feed", "first", segment.indexSegment.first)
 		select {
 		case <-ctx.Done():
 			verifYield("asm.leave")
+			interrupted = true
 			break loop
 		case in <- Job{segment.indexSegment, segment.source}:
 		}
@@ -293,5 +295,11 @@ loop:
 	verifYield("asm.close")
 	close(in)
 
-	return stats, g.Wait()
+	if err := g.Wait(); err != nil {
+		return stats, err
+	}
+	if interrupted { // stopped feeding without a worker error: the file is not complete
+		return stats, Interrupted{}
+	}
+	return stats, nil
 }
